@@ -40,14 +40,23 @@ def firmware(seed, n, tail):
     return bytes(data)
 
 
-def run(page_count, fw, schedule, workdir):
-    """Returns dict(exit=..., out=..., device=..., clock=...)."""
+def run(page_count, fw, schedule, workdir, symlink=False):
+    """Returns dict(exit=..., out=..., device=..., clock=...).  symlink: the path on the command line is a symbolic link
+    to the firmware file (latest.bin -> firmware-v2.bin), as release directories often have it."""
     dfu = load_dfu()
     clock = dfusim.Clock()
     dev = dfusim.Device(page_count, clock, schedule)
     path = os.path.join(workdir, 'firmware.bin')
-    with open(path, 'wb') as f:
-        f.write(fw)
+    for p in (path, os.path.join(workdir, 'firmware-v2.bin')):
+        if os.path.lexists(p):
+            os.remove(p)
+    if symlink:
+        with open(os.path.join(workdir, 'firmware-v2.bin'), 'wb') as f:
+            f.write(fw)
+        os.symlink('firmware-v2.bin', path)
+    else:
+        with open(path, 'wb') as f:
+            f.write(fw)
     old = (dfu.usb, dfu.time, sys.argv)
     dfu.usb = dfusim.FakeUsb(dev)
     dfu.time = dfusim.FakeTime(clock)
